@@ -13,7 +13,7 @@ from .. import gens
 from ..harness import KnownFinding, Sub, Violation
 
 QUICK_SCALE = 2  # quick budgets below are multiplied by this (kept at about half a minute on 8 processes)
-THOROUGH_SCALE = 4  # thorough budgets below are multiplied by this (about ten minutes on 16 processes)
+THOROUGH_SCALE = 2  # thorough budgets below are multiplied by this (about ten minutes on 16 processes)
 
 RULE = ("Hypothesis RuleBasedStateMachine, one estimator per machine (all 18 + must-link/cannot-link decorated variants), "
         "three datasets; rules = public calls fit, fit_predict, predict, predict_proba, score, path, set_params (valid "
